@@ -135,6 +135,10 @@ def run_rules(ctx, res):
     rw = "%s:%d" % (rp, rfn["line"])
     param = rfn["inputs"][0]["pat"]["name"]
     local_consts = {}
+    # module-level string consts of the reader's file (a const hoisted out of the function names the same text)
+    for it in syn.items(rp):
+        if it["k"] == "Const" and it.get("expr") and it["expr"]["k"] == "Lit" and it["expr"]["lit"]["t"] == "str":
+            local_consts[it["name"]] = it["expr"]["lit"]["v"]
     loops = []
     tail = None
     for st in rfn["body"]["stmts"]:
